@@ -54,6 +54,49 @@ def mask_call(prog, fn, want):
     return None, None
 
 
+def mask_chain_problem(prog, call, want, depth=0):
+    """The mask a caller receives IS the layout's mask of the two bounds it handed in: from the call down to the mask function
+    every hop returns the next hop's result (nothing stored, cached or merged in), passes the two bounds on in order, and the last
+    hop turns each bound into its position with one and the same position function.  Returns a description of the first hop that
+    does not, or None."""
+    tgt = prog.resolve(call)
+    if tgt is None or depth > 4 or not tgt.info.get('mir'):
+        return 'undecided: the %s mask comes from a call that cannot be followed' % want
+    tb = tgt.body
+    if want in tgt.name and tb.cfg.loops():
+        return None                     # the mask function itself (HEAPMASK decides what it computes)
+    rets = [strip(tb.ret_val[rb]) for rb in tb.cfg.returns]
+    if len(rets) != 1 or rets[0].kind != 'call':
+        return 'the %s mask handed out by %s is not the result of the mask computation for this range (%s)' % (want, tgt.name, show(rets[0], 2) if rets else 'no result')
+    inner = rets[0]
+    it = prog.resolve(inner)
+    if it is None:
+        return 'undecided: the %s mask comes from a call that cannot be followed' % want
+    coords = [a for a in inner.args if (a.ty or '') in ('i64', 'u32', 'i32', 'u64', 'usize')]
+    if len(coords) != 2:
+        return 'undecided: %s does not hand two coordinates to %s' % (tgt.name, it.name)
+    # the two coordinates: the hop's own bounds in order, raw or each through the same position function
+    def bound_of(v):
+        sv = strip(v)
+        if sv is not None and sv.kind == 'param':
+            return ('raw', sv.args[0])
+        if sv is not None and sv.kind == 'call':
+            pt = prog.resolve(sv)
+            ps = [strip(a) for a in sv.args if strip(a) is not None and strip(a).kind == 'param' and (a.ty or '') in ('i64', 'u32', 'i32', 'u64', 'usize')]
+            if pt is not None and len(ps) == 1:
+                return (pt.path, ps[0].args[0])
+        return None
+    b0, b1 = bound_of(coords[0]), bound_of(coords[1])
+    if b0 is None or b1 is None:
+        bad = coords[0] if b0 is None else coords[1]
+        return 'in %s the %s coordinate of the %s mask is %s, not the position of the bound handed in' % (tgt.name, 'first' if b0 is None else 'second', want, show(bad, 3))
+    if b0[0] != b1[0]:
+        return 'in %s the two bounds are turned into positions in different ways' % tgt.name
+    if not (b0[1] < b1[1]):
+        return 'in %s the bounds are passed on in the wrong order' % tgt.name
+    return mask_chain_problem(prog, inner, want, depth + 1)
+
+
 def range_args_ok(c):
     """args 1,2 derive from range.min, range.max in that order"""
     def field_of(v):
@@ -197,6 +240,9 @@ def check_insert(ctx, prog, fn):
         line = span_line(mc, fn.line)
         if not range_args_ok(mc):
             problems.append('the place mask is not computed from (range.min, range.max) in that order')
+        cp = mask_chain_problem(prog, mc, 'place')
+        if cp:
+            problems.append(cp)
         # bit iterator over that very mask
         iters = [c for c in b.calls if prog.resolve(c) is not None and prog.resolve(c).name == 'new' and c.args and strip(c.args[-1]) is mc and len(c.args) == 1]
         ents = [c for c in b.calls if prog.resolve(c) is not None and prog.resolve(c).name == 'new' and len(c.args) == 2]
@@ -269,6 +315,9 @@ def check_query(ctx, prog, fn):
         line = span_line(mc, fn.line)
         if not range_args_ok(mc):
             problems.append('the visit mask is not computed from (range.min, range.max) in that order')
+        cp = mask_chain_problem(prog, mc, 'intersect')
+        if cp:
+            problems.append(cp)
         ctor = [c for c in b.calls if prog.resolve(c) is not None and any(strip(a) is mc for a in c.args)]
         if not ctor:
             problems.append('the visit mask does not reach the iterator')
